@@ -101,6 +101,7 @@ var flowRules = map[string]flowFn{
 	"kind-of-operator":  func(f *yyflow.Lang, sh map[string]*yyflow.Shape) *report.RuleResult { return f.KindOfOperator() },
 	"grammar-ignores-trivia": func(f *yyflow.Lang, sh map[string]*yyflow.Shape) *report.RuleResult { return f.IgnoresTrivia() },
 	"report-positions":  func(f *yyflow.Lang, sh map[string]*yyflow.Shape) *report.RuleResult { return f.ReportPositions(sh) },
+	"pos-distinct":      func(f *yyflow.Lang, sh map[string]*yyflow.Shape) *report.RuleResult { return f.PosDistinct(sh) },
 	"assert-safe":       func(f *yyflow.Lang, sh map[string]*yyflow.Shape) *report.RuleResult { return f.AssertSafe(sh) },
 }
 
